@@ -11,34 +11,39 @@
 (* Del is only allowed when it hides no key ("no input file is removed     *)
 (* before its rows are in a complete output file"); Conserved is judged on *)
 (* the rows a scan of the partition returns after a compaction cycle that  *)
-(* ran undisturbed ("once a later compaction cycle has run").              *)
+(* ran undisturbed ("once a later compaction cycle has run").  mult/exact: *)
+(* copies of a row that is identical in every column, and whether the      *)
+(* partition carries no dedup metadata (then counts are preserved exactly).*)
 (***************************************************************************)
 EXTENDS Naturals, Sequences, FiniteSets, TLC
 
-VARIABLES orig, files
+VARIABLES orig, files, mult, exact
 
 EmptyFn == [x \in {} |-> 0]
-PInit == orig = EmptyFn /\ files = EmptyFn
+PInit == orig = EmptyFn /\ files = EmptyFn /\ mult = EmptyFn /\ exact = FALSE
 
 KeyOf(r)    == IF r \in DOMAIN orig THEN orig[r] ELSE 0
 RidsOf(b)   == {r \in DOMAIN b : b[r] > 0}
 VisKeys(fs) == {KeyOf(r) : r \in UNION {RidsOf(fs[n].bag) : n \in {m \in DOMAIN fs : fs[m].vis}}}
 
-Start(o) == orig' = o /\ files' = EmptyFn
+\* m: row id -> number of fully identical copies originally shown; e: no file carries dedup metadata
+Start(o, m, e) == orig' = o /\ files' = EmptyFn /\ mult' = m /\ exact' = e
 
 Put(name, vis, bag) ==
     /\ files' = [n \in DOMAIN files \cup {name} |-> IF n = name THEN [vis |-> vis, bag |-> bag] ELSE files[n]]
-    /\ UNCHANGED orig
+    /\ UNCHANGED <<orig, mult, exact>>
 
 Without(name) == [n \in DOMAIN files \ {name} |-> files[n]]
 DeleteSafe(name) == VisKeys(files) \subseteq VisKeys(Without(name))
 Del(name) == /\ name \in DOMAIN files
              /\ files' = Without(name)
-             /\ UNCHANGED orig
+             /\ UNCHANGED <<orig, mult, exact>>
 
 \* scan: row id -> number of times the partition shows it
 OnlyOriginal(scan) == RidsOf(scan) \subseteq DOMAIN orig
-NoDuplicate(scan)  == \A r \in DOMAIN scan : scan[r] <= 1
-NoLoss(scan)       == \A r \in DOMAIN orig : \E q \in RidsOf(scan) : KeyOf(q) = orig[r]
+NoDuplicate(scan)  == \A r \in DOMAIN scan : scan[r] <= (IF r \in DOMAIN mult THEN mult[r] ELSE 1)
+NoLoss(scan)       == /\ \A r \in DOMAIN orig : \E q \in RidsOf(scan) : KeyOf(q) = orig[r]
+                      \* without dedup metadata nothing may collapse, not even rows equal in every column
+                      /\ exact => \A r \in DOMAIN mult : r \in DOMAIN scan /\ scan[r] >= mult[r]
 Conserved(scan)    == OnlyOriginal(scan) /\ NoDuplicate(scan) /\ NoLoss(scan)
 =============================================================================
